@@ -91,12 +91,12 @@ def gen(rng, tier, focus):
     return lines, stmts
 
 
-def run_lines(scratch, lines, tag, timeout=1500):
+def run_lines(scratch, lines, tag, timeout=1500, impl_side=True, model_side=True):
     path = scratch.path("sql-%s.txt" % tag)
     with open(path, "w") as fh:
         fh.write("\n".join(lines) + "\n")
-    ilines, rc, err = core.run_impl(scratch, "sql", path, timeout=timeout)
-    mlines = core.run_model("sql", path, timeout=timeout)
+    ilines, rc, err = core.run_impl(scratch, "sql", path, timeout=timeout) if impl_side else ([], 0, "")
+    mlines = core.run_model("sql", path, timeout=timeout) if model_side else []
     impl, model = {}, {}
     for l in ilines:
         f = l.split(" ", 2)
